@@ -266,13 +266,32 @@ func (sf *SpecFile) load(path string, extern bool) error {
 			}
 			sf.Axioms = append(sf.Axioms, &Clause{Kind: "axiom", Text: rest, Expr: e, File: path, Line: l.line, Label: when})
 		case strings.HasPrefix(first, "lemma"):
-			// lemma[C09:name] expr
-			props, label := parsePropsLabel(strings.TrimPrefix(first, "lemma"))
+			// lemma[C09:name] expr                 proved from the prelude theories in the check of C09
+			// lemma[C17:name when sym] expr        ... and then assumed (as a conditional axiom) in the functions
+			//                                      whose contracts mention sym
+			head := first
+			if strings.HasPrefix(first, "lemma[") && !strings.Contains(first, "]") {
+				cl := strings.Index(t, "]")
+				if cl < 0 {
+					return fail(l, "bad lemma head")
+				}
+				head = t[:cl+1]
+				rest = strings.TrimSpace(t[cl+1:])
+			}
+			props, label := parsePropsLabel(strings.TrimPrefix(head, "lemma"))
+			when := ""
+			if i := strings.Index(label, " when "); i >= 0 {
+				when = strings.TrimSpace(label[i+6:])
+				label = strings.TrimSpace(label[:i])
+			}
 			e, err := parseExpr(rest)
 			if err != nil {
 				return fail(l, "%v", err)
 			}
 			sf.Lemmas = append(sf.Lemmas, &Lemma{Name: label, Props: props, Expr: e, Text: rest})
+			if when != "" {
+				sf.Axioms = append(sf.Axioms, &Clause{Kind: "axiom", Text: rest, Expr: e, File: path, Line: l.line, Label: when, Name: "lemma " + label, Props: props})
+			}
 		case first == "smtfun" || first == "extern":
 			// informational only: signatures come from the prelude files
 		default:
